@@ -70,6 +70,18 @@ def _rbw(stmts, name):
     return 'none'
 
 
+def _read_outside(nodes, name):
+    """The name is read somewhere in the enclosing function outside this loop (so its value after the loop matters)."""
+    import ast
+    loops = [n for n in nodes if isinstance(n, (ast.For, ast.While))]
+    if len(loops) != 1 or not hasattr(loops[0], '_pyvc_func'):
+        return False
+    loop = loops[0]
+    inside = {id(x) for x in ast.walk(loop)}
+    return any(isinstance(x, ast.Name) and x.id == name and isinstance(x.ctx, ast.Load) and id(x) not in inside
+               for x in ast.walk(loop._pyvc_func))
+
+
 def _live_at_head(nodes, name):
     """False only if every iteration certainly overwrites `name` before reading it."""
     import ast
@@ -102,7 +114,7 @@ def _havoc_checked(label, havoc, I, frame, body, *a):
     """Frame condition of the contract: every local the loop body assigns and that is live at the loop head must be
     replaced by the havoc step (otherwise its pre-loop value would be used as if the loop never changed it)."""
     from .values import Unsupported
-    names = {k for k in _assigned_names(body) if _live_at_head(body, k)}
+    names = {k for k in _assigned_names(body) if _live_at_head(body, k) or _read_outside(body, k)}
     before = {k: frame.locals[k] for k in names if k in frame.locals}
     _fit(label, havoc, I, frame, *a)
     kept = getattr(havoc, 'keeps', ())
